@@ -311,6 +311,43 @@ fn other_value(c: &ClaimData, rng: &mut Rng) -> ClaimData {
     }
 }
 
+fn contains(h: &[u8], n: &[u8]) -> bool {
+    !n.is_empty() && h.len() >= n.len() && h.windows(n.len()).any(|w| w == n)
+}
+
+/// A value sent in the clear that is a hash of public data and the hidden claim lets anybody test a guess of the claim.
+/// The logging merlin records every transcript the prover runs: a transcript is reported when (1) ≥ 8 leading bytes of one
+/// of its outputs appear verbatim in the presentation, (2) one of its inputs contains a representation of the hidden claim
+/// (text form, raw bytes, scalar in either byte order), and (3) every other input is public (appears in the presentation,
+/// the schema or the nonce, or is at most 4 bytes long).
+fn clear_hash_of_claim(log: &[merlin::vlog::Entry], pres: &[u8], public: &[u8], claim: &ClaimData) -> Vec<String> {
+    let mut reps: Vec<Vec<u8>> = vec![claim.to_text().into_bytes(), claim.to_scalar().to_be_bytes().to_vec(), claim.to_scalar().to_le_bytes().to_vec(), claim.to_bytes()];
+    if let Some(t) = claim.to_text().splitn(2, ':').nth(1) {
+        reps.push(t.as_bytes().to_vec());
+    }
+    reps.retain(|r| r.len() >= 1);
+    let mut found = vec![];
+    let mut tids: Vec<u64> = log.iter().map(|e| e.tid).collect();
+    tids.sort();
+    tids.dedup();
+    for tid in tids {
+        let es: Vec<&merlin::vlog::Entry> = log.iter().filter(|e| e.tid == tid).collect();
+        for (oi, out) in es.iter().enumerate().filter(|(_, e)| e.kind == 1 && e.data.len() >= 8) {
+            let take = out.data.len().min(12);
+            if !contains(pres, &out.data[..take.max(8)]) {
+                continue;
+            }
+            let inputs: Vec<&&merlin::vlog::Entry> = es[..oi].iter().filter(|e| e.kind == 0 && e.label != b"dom-sep").collect();
+            let has_claim = inputs.iter().any(|e| reps.iter().any(|r| r.len() >= 2 && contains(&e.data, r) || e.data == *r));
+            let all_public = inputs.iter().all(|e| e.data.len() <= 4 || contains(pres, &e.data) || contains(public, &e.data) || reps.iter().any(|r| e.data == *r || (r.len() >= 2 && contains(&e.data, r) && e.data.len() <= r.len() + 8)));
+            if has_claim && all_public {
+                found.push(format!("clear-text-value-is-hash-of-public-data-and-claim:{}", String::from_utf8_lossy(&out.label)));
+            }
+        }
+    }
+    found
+}
+
 fn c07_suite<S: ShortGroupSignatureScheme>(em: &mut Emitter, base: &mut Rng, suite: &str) {
     let off = if suite == "bbs" { 0 } else { 1 };
     let kinds = ["commitment", "commitment+range", "verenc", "verenc+scalar", "ved", "revocation", "membership", "signature-only", "equality", "equality2", "commitment-twice", "commitment-two-claims", "commitment+range-twice"];
@@ -404,7 +441,12 @@ fn c07_suite<S: ShortGroupSignatureScheme>(em: &mut Emitter, base: &mut Rng, sui
             }
         }
         let scn = scn;
-        let p = match scn.create() {
+        merlin::vlog::take();
+        merlin::vlog::enable(true);
+        let created = scn.create();
+        merlin::vlog::enable(false);
+        let prover_log = merlin::vlog::take();
+        let p = match created {
             Out::Ok(p) if scn.verify(&p).is_ok() => p,
             _ => continue,
         };
@@ -426,6 +468,13 @@ fn c07_suite<S: ShortGroupSignatureScheme>(em: &mut Emitter, base: &mut Rng, sui
         // the other claims of the scenario's credentials (side knowledge / enumerable values)
         let others: Vec<Scalar> = scn.bundles.iter().flat_map(|b| b.credential.claims.iter().enumerate().filter(|(i, _)| *i != ci).map(|(_, c)| c.to_scalar()).collect::<Vec<_>>()).collect();
         let mut found = distinguishers(&view, &gens, &m0, &m1, &others);
+        {
+            let pres_bytes = serde_bare::to_vec(&p).unwrap_or_default();
+            let mut public_bytes = serde_bare::to_vec(&scn.schema).unwrap_or_default();
+            public_bytes.extend(serde_json::to_vec(&scn.schema).unwrap_or_default());
+            public_bytes.extend_from_slice(&scn.nonce);
+            found.extend(clear_hash_of_claim(&prover_log, &pres_bytes, &public_bytes, claim));
+        }
         // a group element transmitted at two places: two sub-proofs drew the same randomness
         for (i, (an, a)) in view.g1.iter().enumerate() {
             if bool::from(a.is_identity()) || gens.iter().any(|(_, q)| q == a) {
